@@ -112,6 +112,40 @@ theorem layout_inverse (d : Dim) (s1 s2 : LayoutSpec) (h1 : Gen.m2c d = .ok s1) 
   | .d3, [], _ | .d3, [_], _ | .d3, [_, _], _ | .d3, _ :: _ :: _ :: _ :: _, _ | .d3, [_, _, _], []
   | .d3, [_, _, _], [_] | .d3, [_, _, _], [_, _] | .d3, [_, _, _], _ :: _ :: _ :: _ :: _ => simp_all [Dim.toNat, inBox]
 
+/-- … and in the other direction: converting a Cartesian-layout array to matrix layout and back returns it
+(`m2c (c2m B) = B`), for every shape of `B` and every in-range index. Together with `layout_inverse` the two helpers are
+mutual inverses. -/
+theorem layout_inverse' (d : Dim) (s1 s2 : LayoutSpec) (h1 : Gen.m2c d = .ok s1) (h2 : Gen.c2m d = .ok s2)
+    (shape v : List Nat) (hv : inBox shape v = true) (hs : shape.length = d.toNat) :
+    s1.outShape (s2.outShape shape) = shape ∧
+    s2.pull shape (s1.pull (s2.outShape shape) v) = v := by
+  match d, shape, v with
+  | .d1, [n0], [v0] =>
+    simp only [Gen.m2c, Gen.c2m] at h1 h2; cases h1; cases h2
+    simp [LayoutSpec.pull, LayoutSpec.outShape, listGetD, List.range, List.range.loop, List.zipIdx]
+  | .d2, [n0, n1], [v0, v1] =>
+    simp only [Gen.m2c, Gen.c2m] at h1 h2; cases h1; cases h2
+    simp [inBox] at hv
+    simp [LayoutSpec.pull, LayoutSpec.outShape, listGetD, List.range, List.range.loop, List.zipIdx]
+    all_goals omega
+  | .d3, [n0, n1, n2], [v0, v1, v2] =>
+    simp only [Gen.m2c, Gen.c2m] at h1 h2; cases h1; cases h2
+    simp [inBox] at hv
+    simp [LayoutSpec.pull, LayoutSpec.outShape, listGetD, List.range, List.range.loop, List.zipIdx]
+    all_goals omega
+  | .d1, [], _ | .d1, _ :: _ :: _, _ | .d1, [_], [] | .d1, [_], _ :: _ :: _ => simp_all [Dim.toNat, inBox]
+  | .d2, [], _ | .d2, [_], _ | .d2, _ :: _ :: _ :: _, _ | .d2, [_, _], [] | .d2, [_, _], [_]
+  | .d2, [_, _], _ :: _ :: _ :: _ => simp_all [Dim.toNat, inBox]
+  | .d3, [], _ | .d3, [_], _ | .d3, [_, _], _ | .d3, _ :: _ :: _ :: _ :: _, _ | .d3, [_, _, _], []
+  | .d3, [_, _, _], [_] | .d3, [_, _, _], [_, _] | .d3, [_, _, _], _ :: _ :: _ :: _ :: _ => simp_all [Dim.toNat, inBox]
+
+/-- The hypotheses of the three layout theorems are met in EVERY dimension: both helpers are tabulated as a permutation
+plus flips of the right rank (if a helper stopped being one, the tabulation records an error and this obligation fails —
+the layout theorems can therefore not become vacuous unnoticed). -/
+theorem layout_specs_exist :
+    ∀ d ∈ Dim.all, (Gen.m2c d).toOption.map List.length = some d.toNat ∧
+      (Gen.c2m d).toOption.map List.length = some d.toNat := by decide
+
 /-- Addressing an axis by its Cartesian name or by its matrix index selects the same axis, in
 slicing (`Image.slice`) and in reduction (`AxisReduction`), and that axis is the one the
 coordinate system assigns to the name. -/
